@@ -40,17 +40,40 @@ def run(ctx):
         a, b = show(peel_calls(f[2])), show(peel_calls(f[3]))
         return "arg2" in (a, b)
 
+    MEMBER = re.compile(r"BTreeSet::contains$|HashSet::contains$|slice::contains$|::contains$|::contains_key$")
+
     def contains(f, want):
-        if f[0] != "bool" or f[2] != want:
+        """fact `id is (not) a member of the delegate collection`: contains / iter().any(==) / binary_search().is_ok()"""
+        if f[0] == "bool":
+            e = peel(f[1])
+            if cfg.callee_is(e, MEMBER):
+                return f[2] == want and "delegates" in show(e[2][0])
+            if cfg.callee_is(e, re.compile(r"Iterator::any$")) and "delegates" in show(e[2][0]):
+                return f[2] == want
+            if cfg.callee_is(e, re.compile(r"Result::is_(ok|err)$")):
+                inner = peel(e[2][0])
+                if cfg.callee_is(inner, re.compile(r"::binary_search(_by|_by_key)?$")) and "delegates" in show(inner[2][0]):
+                    return (f[2] == want) == (e[1].get("n") or "").endswith("is_ok")
             return False
-        e = peel(f[1])
-        if not cfg.callee_is(e, re.compile(r"BTreeSet::contains$|HashSet::contains$|slice::contains$|::contains$")):
-            return False
-        return "delegates" in show(e[2][0])
+        if f[0] == "variant" and f[3] in ("Ok", "Err"):
+            e = peel(f[1])
+            if cfg.callee_is(e, re.compile(r"::binary_search(_by|_by_key)?$")) and "delegates" in show(e[2][0]):
+                return ((f[3] == "Ok") == bool(f[4])) == want
+        return False
     eq_blocks = [bb for bb, t, c in db.calls(rc) if (c.get("dn") in ("core::cmp::PartialEq::eq", "core::cmp::PartialEq::ne"))
                  and "arg2" in show(peel_calls(expr_operand(rc, t[2][0]))) + show(peel_calls(expr_operand(rc, t[2][1])))]
-    ct_blocks = [bb for bb, t, c in db.calls(rc) if re.search(r"::contains$", c.get("n") or "")
+    ct_blocks = [bb for bb, t, c in db.calls(rc) if re.search(r"::contains$|::contains_key$|Iterator::any$|::binary_search(_by|_by_key)?$", c.get("n") or "")
                  and "delegates" in show(peel_calls(expr_operand(rc, t[2][0])))]
+    # a binary search is a membership test only on a sorted sequence
+    for bb, t, c in db.calls(rc):
+        if re.search(r"::binary_search(_by|_by_key)?$", c.get("n") or "") and "delegates" in show(peel_calls(expr_operand(rc, t[2][0]))):
+            src = show(peel_calls(expr_operand(rc, t[2][0])))
+            g_ = cfg.graph(rc)
+            sorts = [b2 for b2, t2, c2 in db.calls(rc) if re.search(r"::sort(_unstable)?(_by|_by_key)?$", c2.get("n") or "") and g_.dominates(b2, bb)]
+            ordered = bool(sorts) or re.search(r"BTreeSet|BTreeMap", src) is not None
+            ctx.check("mech:clean:delegate-lookup", ordered,
+                      "the delegate lookup is a binary search over a sequence that is sorted (the identity document lists delegates in document order, "
+                      "not key order: an unsorted search misses delegates, whose namespaces are then deleted)", rules.where(rc, bb), detail=src[:200], fn=rc)
     ctx.floor("clean:guards", len(eq_blocks) + len(ct_blocks), 2, "local-equality and delegate-membership tests in Repository::clean")
     reeval = set(eq_blocks) | set(ct_blocks)
     for label, deny, allow in (("local", lambda f: is_local_eq(f, "Eq"), lambda f: is_local_eq(f, "Ne")),
@@ -69,7 +92,17 @@ def run(ctx):
             if "arg2" not in show(peel_calls(expr_operand(rc, a_))):
                 roots.add(_rk(flow.root_place(rc, a_)))
     for bb in ct_blocks:
-        roots.add(_rk(flow.root_place(rc, rc["blocks"][bb]["t"][2][1])))
+        t = rc["blocks"][bb]["t"]
+        if (t[1].get("n") or "").endswith("Iterator::any"):
+            # the id compared is a capture of the predicate closure
+            op = t[2][1]
+            if op[0] in ("c", "m"):
+                for d in cfg.graph(rc).defs().get(op[1][0], []):
+                    if d[0] == "stmt" and d[3][0] == "agg":
+                        for cap in d[3][2]:
+                            roots.add(_rk(flow.root_place(rc, cap)))
+            continue
+        roots.add(_rk(flow.root_place(rc, t[2][1])))
     glob_roots = set()
     for bb, t, c in db.calls(rc):
         if re.search(r"references_glob$", c.get("n") or ""):
